@@ -14,9 +14,9 @@ TRUST = ("Trusted base: the harness' reference model (symbol-program interpreter
 
 T = {
  "C01": ("exploration", "5/C01", "generated symbol programs + reference-model oracle (proptest), metamorphic dictionary re-declaration",
-         "Generated search over symbol programs x all 225 lc/lp/pb settings x dictionary sizes (window wraps many times for tiny raw dictionaries) x terminations x containers; expected bytes come from a direct interpreter of the program, so any wrong state transition / context / wrap offset / distance or length decoding shows as a byte difference. Universally quantified over an unbounded domain: exploration is the honest level."),
+         "Generated search over symbol programs x all 225 lc/lp/pb settings x dictionary sizes (window wraps many times for tiny raw dictionaries) x terminations x containers (13-/5-byte header, raw decoder, re-used raw decoder reset to the stream's size); expected bytes come from a direct interpreter of the program, so any wrong state transition / context / wrap offset / distance or length decoding shows as a byte difference; each stream is decoded again with another declared dictionary size and through a fragmenting reader into a short-writing sink; fixed batches add 1-20 MiB (thorough: 64 MiB) histories and streams of more than 65536 symbols; thorough adds a structure-aware libFuzzer target. Universally quantified over an unbounded domain: exploration is the honest level."),
  "C02": ("exploration", "5/C02", "generated LZMA2 chunk sequences + interpreter oracle (proptest), liblzma second opinion",
-         "Generated chunk sequences with every reset class, property changes, cross-chunk copies, mid-stream dictionary resets and size extremes, decoded through lzma2_decompress, raw::Lzma2Decoder and xz_decompress and compared with the interpreter."),
+         "Generated chunk sequences with every reset class, property changes, cross-chunk copies, mid-stream dictionary resets, size extremes (1 byte, exactly k x 64 KiB, 2 MiB, 64 KiB packed) and hundreds of chunks, decoded through lzma2_decompress (also via a fragmenting reader into a short-writing sink), raw::Lzma2Decoder and xz_decompress and compared with the interpreter; liblzma is consulted on every case."),
  "C03": ("exploration", "5/C03", "grammar-generated .xz files + strict-parser/liblzma-validated expected output (proptest)",
          "Generated well-formed .xz files over block counts, check types, optional size fields, header padding, payload shapes; each file is first accepted by liblzma and the harness' strict parser, then lzma-rs must decode it exactly."),
  "C04": ("exploration", "5/C04", "round-trip + differential against independent decoders (proptest)",
@@ -26,7 +26,7 @@ T = {
  "C06": ("fault_enumeration", "5/C06", "per-file exhaustive fault enumeration (bit flips, truncations, sealed field mutations) over generated files",
          "Per generated file every single-bit flip, every truncation offset and the complete (field x value-class) table of sealed single-field mutations is enumerated; files themselves are sampled. Judged on both arithmetic profiles."),
  "C07": ("exploration", "5/C07", "structured-mutation fuzzing (proptest + libFuzzer) with panic/alloc/termination oracles",
-         "Search for panics, over-allocation and non-return over structured mutants, near-valid grammar files and random bytes at every decoding entry point, on overflow-checked and release builds; memory and termination are budgets, not decided."),
+         "Search for panics, over-allocation and non-return over structured mutants, near-valid grammar files (one sealed field at an extreme) and random bytes at every decoding entry point, on overflow-checked and release builds; heap is measured with a counting allocator against 16 MiB + 64 KiB/input byte + 8 x sink bytes, and against 16 MiB + 4 x (true output) when the input is an unmutated valid stream (outputs beyond 1 MiB with announced dictionaries up to 4 GiB - 1); memory and termination are budgets, not decided."),
  "C08": ("exploration", "5/C08", "generated option/size/marker matrix + reference decoder oracle (proptest)",
          "Per generated program the full matrix of options x header size field x provided size x marker x trailing bytes x truncations is evaluated against the reference decoder's end rules."),
  "C09": ("exploration", "5/C09", "generated invalid symbol programs (one out-of-window copy) + must-reject / prefix oracle (proptest)",
